@@ -323,7 +323,8 @@ def cases(tier, seed):
                                             'final_nl': (sum(combo) % 3 != 0)}}
     # ---- fixed inclusion shapes ----------------------------------------------------------------------------
     for shape in ('self', 'cycle2', 'cycle3', 'diamond', 'missing', 'unknown_phase', 'unknown_phase_in_included',
-                  'cycle_via_dotdot', 'include_dir'):
+                  'cycle_via_dotdot', 'include_dir', 'unknown_phase_then_valid_header', 'unknown_phase_first_line',
+                  'unknown_phase_last_line', 'same_file_twice_different_phases'):
         for ph in ('setup', 'cleanup', 'assert'):
             yield {'kind': 'graph', 'shape': shape, 'phase': ph}
     rng = common.rng_for(seed, ID)
@@ -823,12 +824,28 @@ def run_graph(case, ctx):
         files['adir/x'] = ''
         expect = 'FILE_ACCESS_ERROR'
     elif shape == 'unknown_phase':
-        files['main.case'] = '[%s]\n%s\n[no-such-phase]\nx\n[act]\n$ true\n' % (ph, inst % 'a')
+        # what follows the unknown header would be valid in the preceding phase: ignoring the header would PASS
+        files['main.case'] = '[%s]\n%s\n[no-such-phase]\n%s\n[act]\n$ true\n' % (ph, inst % 'a', inst % 'b')
         expect = 'SYNTAX_ERROR'
     elif shape == 'unknown_phase_in_included':
         files['main.case'] = '[%s]\nincluding a.xly\n[act]\n$ true\n' % ph
-        files['a.xly'] = '%s\n[no-such-phase]\nx\n' % (inst % 'a')
+        files['a.xly'] = '%s\n[no-such-phase]\n%s\n' % (inst % 'a', inst % 'b')
         expect = 'SYNTAX_ERROR'
+    elif shape == 'unknown_phase_then_valid_header':
+        files['main.case'] = '[act]\n$ true\n[no-such-phase]\n[%s]\n%s\n' % (ph, inst % 'a')
+        expect = 'SYNTAX_ERROR'
+    elif shape == 'unknown_phase_first_line':
+        files['main.case'] = '[no-such-phase]\n[act]\n$ true\n[%s]\n%s\n' % (ph, inst % 'a')
+        expect = 'SYNTAX_ERROR'
+    elif shape == 'unknown_phase_last_line':
+        files['main.case'] = '[act]\n$ true\n[%s]\n%s\n[no-such-phase]\n' % (ph, inst % 'a')
+        expect = 'SYNTAX_ERROR'
+    elif shape == 'same_file_twice_different_phases':
+        # not a cycle: the same header-less file included from two phases
+        other = 'cleanup' if ph != 'cleanup' else 'setup'
+        files['main.case'] = '[%s]\nincluding c.xly\n[%s]\nincluding c.xly\n[act]\n$ true\n' % (ph, other)
+        files['c.xly'] = '# a comment only\n\n'
+        expect = 'PASS'
     d = ses.new_case_dir()
     root = os.path.join(d, 'root')
     driver.write_files(root, files)
